@@ -22,6 +22,30 @@ M = [
     ('sumscore_not_reset', 'src/alignment/segments.py', "                referenceScores.append(position.score + sumScore)\n                sumScore = 0\n            elif isinstance(position, ScoredNotAlignedPosition) \\\n                    and isinstance(position.position, NotAlignedReferencePosition):", "                referenceScores.append(position.score + sumScore)\n            elif isinstance(position, ScoredNotAlignedPosition) \\\n                    and isinstance(position.position, NotAlignedReferencePosition):", ['C15']),
     ('revert_F1', 'src/alignment/alignment_results.py', '        yield AlignmentResultRow.__hitToString(count, previousHit)\n\n    @staticmethod\n    def __hitToString', '        if hit:\n            yield AlignmentResultRow.__hitToString(count, hit)\n\n    @staticmethod\n    def __hitToString', ['C03', 'C01']),
     ('revert_F5', 'src/alignment/segment_chainer.py', 'queryDistance = currentSegment.startPosition.query.position - previousSegment.endPosition.query.position', 'queryDistance = previousSegment.endPosition.query.position - currentSegment.startPosition.query.position \\\n            if currentSegment.reverse \\\n            else currentSegment.startPosition.query.position - previousSegment.endPosition.query.position', ['C14', 'C01', 'C15']),
+    # ---- coordinator / multi-pass / files
+    ('best_alignment_min', 'src/workflow_coordinator.py', 'key=lambda a: a.confidence, reverse=True)', 'key=lambda a: a.confidence)', ['C05']),
+    ('execute_keeps_pairless', 'src/workflow_coordinator.py', 'if a is not None and a.alignedPairs]', 'if a is not None]', ['C01', 'C05', 'C07']),
+    ('peaks_count_plus1', 'src/correlation/peaks_selector.py', '[0:self.count]', '[0:self.count + 1]', ['C05', 'C16']),
+    ('overlap_lt', 'src/alignment/alignment_results.py', 'if diff <= maxDifference:', 'if diff < maxDifference:', ['C08']),
+    ('overlap_no_strand', 'src/alignment/alignment_results.py', 'if self.orientation == alignedRest.orientation and self.referenceId == alignedRest.referenceId:', 'if self.referenceId == alignedRest.referenceId:', ['C08']),
+    ('fragment_margin', 'src/alignment/alignment_results.py', 'positions1 = query.positions[: query.positions.index(self.queryStartPosition) + 3]', 'positions1 = query.positions[: query.positions.index(self.queryStartPosition) + 2]', ['C02', 'C08', 'C05']),
+    ('fragment_min_labels', 'src/alignment/alignment_results.py', 'if len(positions1) >= 7 and len(positions2) >= 7:', 'if len(positions1) > 7 and len(positions2) > 7:', ['C08', 'C05', 'C02']),
+    ('coverage_test_09', 'src/alignment/alignment_results.py', '> 0.8 * self.queryLength', '> 0.9 * self.queryLength', ['C08', 'C05']),
+    ('fragment_shift_zero', 'src/alignment/alignment_results.py', "shift=len(query.positions) - len(positions2))]\n                else:", "shift=0)]\n                else:", ['C02', 'C01']),
+    ('all_mode_files_swapped', 'src/multi_pass_workflow_coordinator.py', "            self.saveAdditionalOutput(filteredFirstPassRows, 1)\n            self.saveAdditionalOutput(filteredSecondPassRows, 2)", "            self.saveAdditionalOutput(filteredSecondPassRows, 1)\n            self.saveAdditionalOutput(filteredFirstPassRows, 2)", ['C08']),
+    ('rest_flag_dropped', 'src/multi_pass_workflow_coordinator.py', 'alignmentResultRowRest.setAlignedRest(True)', 'alignmentResultRowRest', ['C08']),
+    ('row_create_first_last_swapped', 'src/alignment/alignment_results.py', 'queryStartPosition = (firstPair if not reverseStrand else lastPair).query.position', 'queryStartPosition = (firstPair if reverseStrand else lastPair).query.position', ['C02', 'C11']),
+    ('confidence_max', 'src/alignment/alignment_results.py', 'confidence = sum(s.segmentScore for s in segments)', 'confidence = max([s.segmentScore for s in segments] + [0])', ['C04']),
+    ('writer_one_decimal_conf', 'src/parsers/xmap_reader.py', '"Confidence": "{:.2f}".format(row.confidence),', '"Confidence": "{:.1f}".format(row.confidence),', ['C18', 'C04']),
+    ('writer_pairs_swapped', 'src/parsers/xmap_reader.py', 'f"({pair.reference.siteId},{pair.query.siteId})"', 'f"({pair.query.siteId},{pair.reference.siteId})"', ['C18', 'C01', 'C02']),
+    ('cmap_no_sort', 'src/parsers/cmap_reader.py', 'positions = labelSites["Position"].sort_values().tolist()', 'positions = labelSites["Position"].tolist()', ['C17', 'C10']),
+    ('trim_plus1_dropped', 'src/correlation/optical_map.py', 'self.positions[-1] - self.positions[0] + 1,', 'self.positions[-1] - self.positions[0],', ['C17', 'C02']),
+    ('vectorise_ge', 'src/correlation/vectorise.py', 'while position >= window_end:', 'while position > window_end:', ['C16']),
+    ('bin_centre_floor', 'src/correlation/optical_map.py', 'resolutionAdjustment = ceil(resolution / 2) - 1', 'resolutionAdjustment = resolution // 2', ['C16']),
+    ('wiring_ms_bs', 'src/workflow_coordinator_factory.py', 'AlignmentSegmentsFactory(self.args.minScore, self.args.breakSegmentThreshold)', 'AlignmentSegmentsFactory(self.args.breakSegmentThreshold, self.args.minScore)', ['C04']),
+    ('unordered_map', 'src/workflow_coordinator.py', 'from p_tqdm import p_imap', 'from p_tqdm import p_uimap as p_imap', ['C09']),
+    ('indel_blur_lt', 'sv/write_indel_files.py', 'if abs(line[3] - new_list[-1][3]) <= blur:', 'if abs(line[3] - new_list[-1][3]) < blur:', ['C20']),
+    ('comparer_overlap_ge', 'src/diagnostic/alignment_comparer.py', 'return self.identity > 0.', 'return self.identity >= 0.', ['C19']),
 ]
 
 
